@@ -195,9 +195,21 @@ int sm2_fast_sign(const sm2_z256_t fast_private, SM2_SIGN_PRE_COMP *pre_comp,
 
 	// s = (k + r) * d' - r
 	sm2_z256_modn_add(s, pre_comp->k, r);
+
+	// r == 0 or r + k == n (i.e. k + r == 0 mod n): this nonce must not be used,
+	// return 0 so that the caller takes another pre-computed nonce
+	if (sm2_z256_is_zero(r) || sm2_z256_is_zero(s)) {
+		return 0;
+	}
+
 	sm2_z256_modn_to_mont(s, s);
 	sm2_z256_modn_mont_mul(s, s, fast_private); // mont(s) * d = s * R^-1 * d * R = s * d
 	sm2_z256_modn_sub(s, s, r);
+
+	// s == 0: likewise
+	if (sm2_z256_is_zero(s)) {
+		return 0;
+	}
 
 	sm2_z256_to_bytes(r, sig->r);
 	sm2_z256_to_bytes(s, sig->s);
@@ -568,19 +580,29 @@ int sm2_sign_finish(SM2_SIGN_CTX *ctx, uint8_t *sig, size_t *siglen)
 
 	sm3_finish(&ctx->sm3_ctx, dgst);
 
-	if (ctx->num_pre_comp == 0) {
-		if (sm2_fast_sign_pre_compute(ctx->pre_comp) != 1) {
+	// every pre-computed nonce is consumed once; sm2_fast_sign returns 0 for a nonce
+	// that gives r == 0, r + k == n or s == 0, then the next one is taken
+	for (;;) {
+		int ret;
+
+		if (ctx->num_pre_comp == 0) {
+			if (sm2_fast_sign_pre_compute(ctx->pre_comp) != 1) {
+				error_print();
+				return -1;
+			}
+			ctx->num_pre_comp = SM2_SIGN_PRE_COMP_COUNT;
+		}
+
+		ctx->num_pre_comp--;
+		ret = sm2_fast_sign(ctx->fast_sign_private, &ctx->pre_comp[ctx->num_pre_comp],
+			dgst, &signature);
+		if (ret == 1) {
+			break;
+		}
+		if (ret < 0) {
 			error_print();
 			return -1;
 		}
-		ctx->num_pre_comp = SM2_SIGN_PRE_COMP_COUNT;
-	}
-
-	ctx->num_pre_comp--;
-	if (sm2_fast_sign(ctx->fast_sign_private, &ctx->pre_comp[ctx->num_pre_comp],
-		dgst, &signature) != 1) {
-		error_print();
-		return -1;
 	}
 
 	*siglen = 0;
